@@ -22,7 +22,44 @@ class Macro:
         self.call_first = False  # the body begins with its first nested call (no op of its own before it)
         self.tail = None  # None | "return" | "end" | "hold": the body's last statement
         self.label_only = False  # the body is a label and nothing else (an expansion that emits no op)
+        self.use = None  # None | "switch" | "while" | "while_return" | "for" | "value" | "msgswitch": the first parameter in a header
+        self.wrap_plan: list = []  # per call: None | "if" | "forever" | "while" | "case" - the construct the call sits in
         self.arg_plan: list[list[str]] = []  # per call: argument texts
+
+
+def use_lines(use, t: str, p0: str, ret: str, ind: str) -> list[str]:
+    """Statements that use the first parameter in the header of a construct. `ret` is the text of `return` here
+    (`return;` in a macro body, a jump to the expansion's end label in the inlined program)."""
+    if use == "switch":
+        return [f"{ind}switch ({p0}) {{", f"{ind}    case 1:", f"{ind}        {t}_s1();", f"{ind}        break;", f"{ind}    default:", f"{ind}        {t}_s2();", f"{ind}}}"]
+    if use == "while":
+        return [f"{ind}while ({p0} < 2) {{", f"{ind}    {t}_w();", f"{ind}    break_loop;", f"{ind}}}"]
+    if use == "while_return":
+        return [f"{ind}while ({p0} < 2) {{", f"{ind}    {t}_w();", f"{ind}    {ret}", f"{ind}}}"]
+    if use == "for":
+        return [f"{ind}for ({t}_f0({p0}); {p0} < 3; {t}_f2();) {{", f"{ind}    {t}_f1();", f"{ind}}}"]
+    if use == "value":
+        return [f"{ind}if ($CMP == {p0}) {{", f"{ind}    {t}_v();", f"{ind}}}", f"{ind}$SET = {p0};"]
+    if use == "msgswitch":
+        return [f"{ind}message_SwitchTalk ({p0}) {{", f"{ind}    case 1:", f"{ind}        'one'", f"{ind}    default:", f"{ind}        'other'", f"{ind}}}"]
+    return []
+
+
+def wrap_lines(wrap, t: str, i: int, inner: list[str], ind: str) -> list[str]:
+    """The construct a call sits in; `inner` is the call (or its expansion), already indented by ind + 4 / ind + 8."""
+    if wrap == "if":
+        return [f"{ind}if ($C{i} == 1) {{"] + inner + [f"{ind}}}"]
+    if wrap == "forever":
+        return [f"{ind}forever {{"] + inner + [f"{ind}    break_loop;", f"{ind}}}"]
+    if wrap == "while":
+        return [f"{ind}while ($C{i} < 2) {{"] + inner + [f"{ind}}}"]
+    if wrap == "case":
+        return [f"{ind}switch ($C{i}) {{", f"{ind}    case 1:"] + inner + [f"{ind}        break;", f"{ind}    default:", f"{ind}        {t}_d{i}();", f"{ind}}}"]
+    return inner
+
+
+def wrap_indent(wrap) -> str:
+    return {"if": "    ", "forever": "    ", "while": "    ", "case": "        "}.get(wrap, "")
 
 
 class Lib:
@@ -47,13 +84,16 @@ class Lib:
             lines.append(f"        {t}_r();")
             lines.append("        return;")
             lines.append("    }")
+        if m.use and m.params and not (m.call_first and m.callees):
+            lines += use_lines(m.use, t, m.params[0], "return;", "    ")
         if m.label and not (m.call_first and m.callees):
             # the same label name in every macro: labels are private to a macro (and to each of its expansions)
             lines.append(f"    @again;")
             lines.append(f"    {t}_l();")
             lines.append(f"    if ($LOOP_{m.name} < 3) {{ jump @again; }}")
         for i, (callee, args) in enumerate(zip(m.callees, m.arg_plan)):
-            lines.append(f"    ~{callee}({', '.join(args)});")
+            wrap = m.wrap_plan[i] if i < len(m.wrap_plan) else None
+            lines += wrap_lines(wrap, t, i, [f"    {wrap_indent(wrap)}~{callee}({', '.join(args)});"], "    ")
             lines.append(f"    {t}_{i + 1}();")
         if m.tail:
             lines.append(f"    {m.tail};")
@@ -71,6 +111,8 @@ class Lib:
             elif wrap == "case":
                 lines += [f"    switch ($W{i}) {{", "        case 1:", f"            ~{name}({', '.join(args)});", "            break;", "        default:",
                           f"            main_default_{i}();", "    }"]
+            elif wrap in ("forever", "while"):
+                lines += wrap_lines(wrap, "main", i, [f"        ~{name}({', '.join(args)});"], "    ")
             else:
                 lines.append(f"    ~{name}({', '.join(args)});")
             lines.append(f"    main_{i + 1}();")
@@ -99,20 +141,29 @@ class Lib:
         return seen
 
 
-def _args(rng: random.Random, n: int, own_params: list[str], intlike_first: bool = False) -> list[str]:
+def _args(rng: random.Random, n: int, own_params: list[str], intlike_first: bool = False, own_intlike: bool = False) -> list[str]:
     out = []
     for i in range(n):
         c = rng.random()
-        if i == 0 and intlike_first and c >= 0.8:
-            c = 0.7  # the first parameter of this callee is used in a condition: integer-like arguments only
+        if i == 0 and intlike_first:
+            # the first parameter of this callee is used in a condition: integer-like arguments only - a number, a
+            # constant, a variable, or the caller's own first parameter if that one is itself restricted this way
+            if own_intlike and own_params and c < 0.4:
+                out.append(own_params[0])
+                continue
+            c = 0.4 + 0.4 * rng.random()
         if own_params and c < 0.4:
             out.append(rng.choice(own_params))
         elif c < 0.6:
             out.append(str(rng.randint(0, 9)))
         elif c < 0.8:
             out.append(rng.choice(["CONST_A", "$VAR_B", "ACTOR_X"]))
-        else:
+        elif c < 0.9:
             out.append(rng.choice(["'s'", '"t t"', "1.5"]))
+        else:
+            # "all argument kinds": negative and fixed-point numbers, position marks, language strings, strings that
+            # look like variables
+            out.append(rng.choice(["-3", "-0.5", "Position<'mk', 1, 2.5>", "{english='e', german='g'}", "'$x %y'", "12.125"]))
     return out
 
 
@@ -169,10 +220,13 @@ def gen_lib(rng: random.Random, shape: str | None = None, n: int | None = None) 
         m.posmark = rng.random() < 0.2
         m.call_first = rng.random() < 0.3
         m.tail = rng.choice([None, None, None, "return", "end", "hold"])
+        m.use = rng.choice([None, None, None, "switch", "while", "while_return", "for", "value", "msgswitch"]) if m.params else None
+        m.wrap_plan = [None if (j == 0 and m.call_first) else rng.choice([None, None, None, "if", "forever", "while", "case"]) for j in range(len(edges[nm]))]
         m.label_only = (not edges[nm]) and rng.random() < 0.12
         lib.macros[nm] = m
     for m in lib.macros.values():
-        m.arg_plan = [_args(rng, len(lib.macros[c].params) + (1 if rng.random() < 0.1 else 0), m.params, lib.macros[c].early_return)
+        m.arg_plan = [_args(rng, len(lib.macros[c].params) + (1 if rng.random() < 0.1 else 0), m.params,
+                            lib.macros[c].early_return or bool(lib.macros[c].use), m.early_return or bool(m.use))
                       for c in m.callees]
     # callee-first order
     memo: dict = {}
@@ -181,8 +235,10 @@ def gen_lib(rng: random.Random, shape: str | None = None, n: int | None = None) 
     calls = list(roots)
     calls += rng.sample(names, rng.randint(0, min(2, len(names))))
     rng.shuffle(calls)
-    lib.main_calls = [(nm, _args(rng, len(lib.macros[nm].params), [], lib.macros[nm].early_return)) for nm in calls]
-    lib.main_wrap = [rng.choice([None, None, "else", "ifnot", "case"]) for _ in calls]
+    if rng.random() < 0.1:
+        calls += [rng.choice(names)] * rng.choice([10, 12])  # more than nine expansions of one macro in one routine
+    lib.main_calls = [(nm, _args(rng, len(lib.macros[nm].params), [], lib.macros[nm].early_return or bool(lib.macros[nm].use))) for nm in calls]
+    lib.main_wrap = [rng.choice([None, None, None, "else", "ifnot", "case", "forever", "while"]) for _ in calls]
     return lib
 
 
@@ -215,10 +271,13 @@ def inlined_source(lib: Lib, variants: dict[str, str] | None = None, starts: lis
             out.append(f"{ind}{t}_p(Position<'pm_{m.name}', 3, 4.5>);")
         if m.early_return and m.params and not first_call:
             out += [f"{ind}if ({sub(m.params[0])} == 1) {{", f"{ind}    {t}_r();", f"{ind}    jump @ret_{k};", f"{ind}}}"]
+        if m.use and m.params and not first_call:
+            out += use_lines(m.use, t, sub(m.params[0]), f"jump @ret_{k};", ind)
         if m.label and not first_call:
             out += [f"{ind}@again_{k};", f"{ind}{t}_l();", f"{ind}if ($LOOP_{m.name} < 3) {{ jump @again_{k}; }}"]
         for i, (callee, cargs) in enumerate(zip(m.callees, m.arg_plan)):
-            out += expand(callee, [sub(a) for a in cargs], ind)
+            wrap = m.wrap_plan[i] if i < len(m.wrap_plan) else None
+            out += wrap_lines(wrap, t, i, expand(callee, [sub(a) for a in cargs], ind + "    " + wrap_indent(wrap)) if wrap else expand(callee, [sub(a) for a in cargs], ind), ind)
             out.append(f"{ind}{t}_{i + 1}();")
         if m.tail == "return":
             out.append(f"{ind}jump @ret_{k};")
@@ -237,6 +296,8 @@ def inlined_source(lib: Lib, variants: dict[str, str] | None = None, starts: lis
         elif wrap == "case":
             lines += [f"    switch ($W{i}) {{", "        case 1:"] + expand(name, list(args), "            ") + ["            break;", "        default:",
                       f"            main_default_{i}();", "    }"]
+        elif wrap in ("forever", "while"):
+            lines += wrap_lines(wrap, "main", i, expand(name, list(args), "        "), "    ")
         else:
             lines += expand(name, list(args), "    ")
         lines.append(f"    main_{i + 1}();")
